@@ -76,11 +76,11 @@ def _cex(res):
     return None
 
 
-def run_replay(prop, modname, condname, args):
+def run_replay(prop, modname, condname, args, cond=None):
     os.makedirs(REPLAY_DIR, exist_ok=True)
     path = os.path.join(REPLAY_DIR, "%s-%s.json" % (prop, condname))
     with open(path, "w") as f:
-        json.dump({"property": prop, "module": modname, "cond": condname, "args": args}, f, indent=1)
+        json.dump({"property": prop, "module": modname, "cond": cond or condname, "args": args}, f, indent=1)
     p = subprocess.run([PY, "-m", "vf.replay", path], cwd=VERIF, stdout=subprocess.PIPE,
                        stderr=subprocess.STDOUT, timeout=900,
                        env={**os.environ, "VF_REACH": "0", "PYTHONWARNINGS": "ignore"})
@@ -188,6 +188,20 @@ def run_property(prop, modname, tier, seed, log=print):
             rec["reach_twin"] = tst
             if tst == "REFUTED":
                 rec["reachable"] = True
+                # the twin's witness is a concrete instance on which the property holds under the
+                # stubs: run the same instance on the REAL backends (real disk / xarray / pandas /
+                # random): it must hold there too, else stub and reality disagree
+                tm = _cex(twin[c.name])
+                if tm and tm.get("args") is not None and rec["verdict"] == "confirmed":
+                    v = run_replay(prop, modname, c.name + "__instance", tm["args"], cond=c.name)
+                    rec["real_instance"] = {"args": tm["args"], "stub": v.get("stub"), "real": v.get("real")}
+                    if v.get("real") == "fail" or v.get("stub") == "fail":
+                        rec["verdict"] = "harness-error: passing instance fails on the real backends (%s)" % (
+                            str(v.get("detail"))[:300])
+                        rec["exhaustive"] = False
+                        exit_code = max(exit_code, EXIT_HARNESS)
+                        log("HARNESS-ERROR property=%s condition=%s: instance %s holds under CrossHair but "
+                            "fails on replay: %s" % (prop, c.name, tm["args"], str(v.get("detail"))[:400]))
             elif tst == "CONFIRMED" or tst == "PRE_UNSAT":
                 rec["reachable"] = False
                 if rec["verdict"] == "confirmed":
